@@ -437,4 +437,5 @@ def subspace_minimization(
         ),
     )
     # Eq (5.2) -> update free variables only
-    return xc + alpha_star * Z @ dHat
+    # projected so that rounding cannot push a truncated component past its bound
+    return np.clip(xc + alpha_star * Z @ dHat, lb, ub)
